@@ -134,6 +134,11 @@ func (c *StringScanner) PeekColumn() int {
 		return 0
 	}
 
+	// Reading the end of input does not advance the column
+	if c.position+1 >= len(c.content) {
+		return c.column
+	}
+
 	if c.isColumn(charAt) {
 		return c.column + 1
 	}
